@@ -106,6 +106,10 @@ class P:
                     # embedded: "x$@y"
                     if quoted:
                         at.append(X.case(args, X.NOGLOB, {"IFS": ifs}, 0, [X.Q('"', X.L("x"), pe, X.L("y"))]))
+        # Expand under mode Quote is "as if within double-quotes": $@ / $* in every mode, zero to two parameters
+        for name, n, mode, ifs in itertools.product("@*", range(0, 3), (16, 16 | 2, 16 | 1, 16 | 4, 16 | 8, 2, 1, 4, 8), (None, ",", "")):
+            for pes in ([X.P(name)], [X.P(name), X.P(name)], [X.P(name), X.L("x")], [X.P(name, "", None)], [X.P(name, ":-", [X.L("d")])], [X.Q('"', X.P(name))]):
+                at.append(X.case(["sh"] + ["a b", "c"][:n], X.NOGLOB, {"IFS": ifs}, mode, pes))
         rc = []
         nrand = 20000 if tier == "quick" else 200000
         names = ["v", "u", "1", "2", "10", "#", "?", "-", "!", "0", "@", "*", "HOME", "IFS"]
